@@ -106,19 +106,26 @@ theorem C08_asm_line (l : List Char) (h : checkChars l = true) :
     · exact absurd h (by simp)
   · exact absurd h (by simp)
 
-theorem checkLine_ok_iff (s : String) : checkLine s = "ok" ↔ checkChars s.toList = true := by
+theorem checkLine_ok_iff (s : String) :
+    checkLine s = "ok" ↔ checkChars s.toList = true ∨ RSV.Asm.Leo.checkChars s.toList = true := by
   unfold checkLine checkLineB
   constructor
   · intro h
     by_cases hb : checkChars s.toList = true
-    · exact hb
-    · rw [if_neg hb] at h
-      have := congrArg String.length h
-      rw [String.length_append] at this
-      have h5 : "fail ".length = 5 := by decide
-      have h2 : "ok".length = 2 := by decide
-      omega
-  · intro h; rw [if_pos h]
+    · exact Or.inl hb
+    · by_cases hb2 : RSV.Asm.Leo.checkChars s.toList = true
+      · exact Or.inr hb2
+      · rw [if_neg hb, if_neg hb2] at h
+        have := congrArg String.length h
+        rw [String.length_append] at this
+        have h5 : "fail ".length = 5 := by decide
+        have h2 : "ok".length = 2 := by decide
+        omega
+  · rintro (h | h)
+    · rw [if_pos h]
+    · by_cases hb : checkChars s.toList = true
+      · rw [if_pos hb]
+      · rw [if_neg hb, if_pos h]
 
 /-! ## non-vacuity: real kernel lines, checked by the kernel of Lean -/
 
@@ -271,11 +278,14 @@ theorem kMut_chars : kMut.toList = kMutChars := by
 canonical one-line form) are accepted -/
 theorem C08_asm_nonvacuous : checkLine kGfni = "ok" ∧ checkLine kAvx2 = "ok" ∧ checkLine kAvxGfni = "ok" := by
   rw [checkLine_ok_iff, checkLine_ok_iff, checkLine_ok_iff, kGfni_chars, kAvx2_chars, kAvxGfni_chars]
-  refine ⟨?_, ?_, ?_⟩ <;> decide +kernel
+  refine ⟨Or.inl ?_, Or.inl ?_, Or.inl ?_⟩ <;> decide +kernel
 
 /-- `mulGFNI_1x1_64` without the `ADDQ $0x40, CX` that advances the input pointer is rejected -/
 theorem C08_asm_negative : checkLine kMut ≠ "ok" := by
   rw [ne_eq, checkLine_ok_iff, kMut_chars]
-  decide +kernel
+  have h1 : checkChars kMutChars = false := by decide +kernel
+  have h2 : RSV.Asm.Leo.checkChars kMutChars = false := by decide +kernel
+  rw [h1, h2]
+  simp
 
 end RSV.Props.C08asm
